@@ -624,3 +624,21 @@ def keyword_name_programs():
             yield ("kw", k, name, "alone"), [text]
             yield ("kw", k, name, "before-user"), [text, user]
             yield ("kw", k, name, "after-user"), [user, text]
+
+
+def large_input_witnesses():
+    """Machine-generated inputs of 250-600 KB whose depth (of nesting, of a chain of definitions, of a condition) is in the tens
+    of thousands. name -> (text, extra argv, needs a generator)"""
+    n = 14000
+    yield "struct-chain-14000", ("module M\n" + "".join("struct S%d { a: S%d }\n" % (i, i + 1) for i in range(n)) + "struct S%d { a: bool }\n" % n, [], False)
+    n = 60000
+    yield "preprocessor-and-chain-60000", ("module M\n#if " + " && ".join(["A"] * n) + "\nstruct S {}\n#endif\n", ["-D", "A"], False)
+    n = 20000
+    yield "nested-if-20000", ("module M\n" + "#if A\n" * n + "struct S {}\n" + "#endif\n" * n, ["-D", "A"], False)
+    n = 60000
+    yield "nested-sequence-60000-request", ("module M\nstruct S { a: " + "Sequence<" * n + "bool" + ">" * n + " }\n", [], True)
+    # controls one order of magnitude smaller: these must simply compile
+    n = 1200
+    yield "control-struct-chain-1200", ("module M\n" + "".join("struct S%d { a: S%d }\n" % (i, i + 1) for i in range(n)) + "struct S%d { a: bool }\n" % n, [], False)
+    n = 3000
+    yield "control-nested-sequence-3000-request", ("module M\nstruct S { a: " + "Sequence<" * n + "bool" + ">" * n + " }\n", [], True)
